@@ -122,7 +122,7 @@ func runDS(c DSCase) vt.Verdict {
 // =================================================================================================
 // EncodeLayoutMessage <-> ParseDataLayoutMessage
 // Domain (documented): contiguous (address: offsetSize bytes, size: lengthSize bytes) and chunked (1..255
-// chunk dims each <= 2^32-1, B-tree address); compact is documented as unsupported for writing.
+// chunk dims each 1..2^32-1, B-tree address); compact is documented as unsupported for writing.
 
 type LayoutCase struct {
 	SB    SB       `json:"sb"`
@@ -141,7 +141,7 @@ func genLayout(t *rapid.T) LayoutCase {
 		c.Size = genAddr(t, "unusedSize", 8)
 		n := rapid.OneOf(rapid.IntRange(1, 5), rapid.IntRange(1, 33), rapid.SampledFrom([]int{1, 2, 32, 33, 255})).Draw(t, "rank")
 		for i := 0; i < n; i++ {
-			c.Chunk = append(c.Chunk, rapid.OneOf(rapid.Uint64Range(1, 64), rapid.Uint64Range(0, 1<<32-1), rapid.SampledFrom([]uint64{1, 255, 256, 65536, 1<<32 - 1})).Draw(t, "chunkdim"))
+			c.Chunk = append(c.Chunk, rapid.OneOf(rapid.Uint64Range(1, 64), rapid.Uint64Range(1, 1<<32-1), rapid.SampledFrom([]uint64{1, 255, 256, 65536, 1<<32 - 1})).Draw(t, "chunkdim"))
 		}
 	}
 	return c
@@ -177,8 +177,8 @@ func runLayout(c LayoutCase) vt.Verdict {
 			return vt.Skipped("chunk rank outside the documented domain")
 		}
 		for _, d := range c.Chunk {
-			if d > 0xFFFFFFFF {
-				return vt.Skipped("chunk dimension outside the documented domain")
+			if d > 0xFFFFFFFF || d == 0 {
+				return vt.Skipped("chunk dimension outside the documented domain") // a chunk dimension of 0 is not a well-formed layout
 			}
 		}
 	default:
